@@ -42,6 +42,7 @@ K1 == <<Ctl("k", 1, 3)>>
 K3 == <<Ctl("k", 1, 3), Ctl("a", 2, 1), Ctl("i", 0, 2)>>
 SliceTab ==
     \* ---- small slices (quick tier, exhaustive)
+    "covT"   :> S(AR1, <<>>, {"neg"}, {"+"}, TRUE, {2}, {"Pan2"}, {2}, 1, "Out", 2, FALSE) @@
     "coverS" :> S(AR2, K1, {"neg"}, {"+", "*"}, TRUE, {2}, {"Pan2"}, {2}, 1, "Out", 2, FALSE) @@
     "sumS"   :> S(AR2, <<>>, {}, {"+"}, FALSE, {}, {}, {0}, 2, "Out", 2, FALSE) @@
     "sum3S"  :> S(AR2, <<>>, {}, {}, FALSE, {3}, {}, {}, 2, "Out", 2, FALSE) @@
@@ -60,6 +61,7 @@ SliceTab ==
     \* units whose rate requirement covers several inputs (first n inputs audio): valid and invalid combinations
     "nS"     :> S(MIX, <<>>, {}, {}, FALSE, {}, {"XFade2", "LinXFade2", "Balance2", "Rotate2", "BiPanB2", "FreeVerb2", "DecodeB2",
                                                "Pan4", "PanB", "LPF", "HPF"}, {}, 1, "Out", 2, TRUE) @@
+    "listS"  :> S(MIX, <<>>, {}, {}, FALSE, {}, {"list"}, {2}, 1, "OutAll", 1, FALSE) @@
     "twoS"   :> S(MIX, <<>>, {"neg"}, {"+", "*"}, FALSE, {}, {}, {2}, 1, "Out2", 2, FALSE) @@
     "zeroS"  :> S(AR2, <<>>, {"neg"}, {"+", "*"}, FALSE, {}, {}, {0}, 1, "Out0", 2, FALSE) @@
     "localS" :> S(MIX, <<>>, {"neg"}, {"+"}, FALSE, {}, {}, {2}, 1, "LocalOut", 1, FALSE) @@
@@ -82,47 +84,47 @@ SliceTab ==
                   {"Pan2", "LPF", "SinOsc", "LFNoise0", "K2A", "DC"}, {0, 1, 0 - 1, 2, 3}, 12, "Out", 2, FALSE)
 Groups ==
     "quick" :> {"coverS", "sumS", "sum3S", "negS", "shortS", "maddS", "mulS", "opsS", "moS", "deadS", "ratesS",
-                "divS", "localS", "zeroS", "reoptS", "twoS"} @@
+                "divS", "localS", "zeroS", "reoptS", "twoS", "listS"} @@
     "l2S" :> {"coverS", "shortS", "reoptS"} @@
     "thorough" :> {"coverS", "sumS", "sum3S", "negS", "shortS", "maddS", "mulS", "opsS", "moS", "deadS", "ratesS",
-                   "divS", "localS", "zeroS", "reoptS", "twoS", "ops1", "dead2", "local2", "div2", "ring2"} @@
+                   "divS", "localS", "zeroS", "reoptS", "twoS", "listS", "ops1", "dead2", "local2", "div2", "ring2"} @@
     \* too big to enumerate within the budget: sampled with random walks (RSpec)
     "sampled" :> {"sum3", "ring3", "neg3", "madd2", "rates2", "mo2", "ring2", "div2", "dead2", "local2", "ops1"}
 SliceNames == IF IOEnv.VERIF_SLICE \in DOMAIN Groups THEN Groups[IOEnv.VERIF_SLICE] ELSE {IOEnv.VERIF_SLICE}
 
-VARIABLES sl, prog, done
-vars == <<sl, prog, done>>
+VARIABLES sl, prog, done, acts      \* acts: names of the generator actions taken so far (vacuity guard, printed by Emit)
+vars == <<sl, prog, done, acts>>
 Slice == SliceTab[sl]
 Program(ins) == [name |-> sl, ctl |-> Slice.ctl, ins |-> ins]
-Init == sl \in SliceNames /\ prog = Program(Slice.pre) /\ done = FALSE
+Init == sl \in SliceNames /\ prog = Program(Slice.pre) /\ done = FALSE /\ acts = {}
 
 NOps == Len(prog.ins) - Len(Slice.pre)
 \* operands: constants, controls, every channel of every earlier result
 Atoms == {C(v) : v \in Slice.consts} \cup {Pm(i) : i \in 1..Len(prog.ctl)}
          \cup UNION {{R(n, ch) : ch \in 0..(prog.ins[n].nout - 1)} : n \in 1..Len(prog.ins)}
 Signals == {a \in Atoms : a.k # "c"}
-Try(ins) == LET p2 == Program(Append(prog.ins, ins)) IN
+Try(name, ins) == LET p2 == Program(Append(prog.ins, ins)) IN
             /\ Decidable(p2)
-            /\ prog' = p2 /\ done' = FALSE /\ UNCHANGED sl
+            /\ prog' = p2 /\ done' = FALSE /\ acts' = acts \cup {name} /\ UNCHANGED sl
 NotAllConst(as) == \E j \in 1..Len(as) : as[j].k # "c"
 
-AddUn == ~done /\ NOps < Slice.n /\ \E sel \in Slice.un, a \in Signals : Try(Un(sel, a))
+AddUn == ~done /\ NOps < Slice.n /\ \E sel \in Slice.un, a \in Signals : Try("AddUn", Un(sel, a))
 AddBin == ~done /\ NOps < Slice.n /\ \E sel \in Slice.bin, a \in Atoms, b \in Atoms :
-              NotAllConst(<<a, b>>) /\ Try(Bin(sel, a, b))
-AddMAdd == ~done /\ NOps < Slice.n /\ Slice.madd /\ \E a \in Signals, m \in Atoms, d \in Atoms : Try(MAdd(a, m, d))
+              NotAllConst(<<a, b>>) /\ Try("AddBin", Bin(sel, a, b))
+AddMAdd == ~done /\ NOps < Slice.n /\ Slice.madd /\ \E a \in Signals, m \in Atoms, d \in Atoms : Try("AddMAdd", MAdd(a, m, d))
 AddSum == ~done /\ NOps < Slice.n /\ \E k \in Slice.sums :
-              \E xs \in [1..k -> Atoms] : NotAllConst(xs) /\ Try(Sum(xs))
+              \E xs \in [1..k -> Atoms] : NotAllConst(xs) /\ Try("AddSum", Sum(xs))
 \* a further unit fed by earlier results: every input position the class puts a rate requirement on (and the first one)
 \* takes any signal - all combinations, so each checked position in turn is the only bad one - the rest constants
 Checked(c) == {1} \cup c.aud \cup c.same
-AddGen == ~done /\ NOps < Slice.n /\ \E cls \in Slice.gens, rate \in {1, 2} :
+AddGen == ~done /\ NOps < Slice.n /\ \E cls \in Slice.gens \cap ClassNames, rate \in {1, 2} :
               LET c == ClassTab[cls]
                   nout == IF c.nout < 0 THEN 2 ELSE c.nout
                   pos == Checked(c) \cap (1..c.lo) IN
               /\ rate \in c.rates
               /\ \E xs \in [pos -> Signals] :
-                    Try(Gen(cls, rate, nout, [j \in 1..c.lo |-> IF j \in pos THEN xs[j] ELSE C(1)]))
-Finish == /\ ~done /\ Slice.sink \notin {"Out2", "Arr"}
+                    Try("AddGen", Gen(cls, rate, nout, [j \in 1..c.lo |-> IF j \in pos THEN xs[j] ELSE C(1)]))
+Finish == /\ ~done /\ Slice.sink \notin {"Out2", "Arr", "OutAll"}
           /\ \E a \in Signals :
                LET fixed == IF Slice.sink = "LocalOut" THEN <<>> ELSE <<C(0)>>
                    zero == IF Slice.sink = "Out0" THEN <<C(0)>> ELSE <<>>       \* a literal 0 channel (becomes silence)
@@ -130,13 +132,30 @@ Finish == /\ ~done /\ Slice.sink \notin {"Out2", "Arr"}
                    p2 == Program(Append(prog.ins, Gen(cls, Slice.srate, 0, fixed \o <<a>> \o zero))) IN
                /\ Decidable(p2)
                /\ Slice.anyrate \/ MustCompile(p2)
-               /\ prog' = p2 /\ done' = TRUE /\ UNCHANGED sl
+               /\ prog' = p2 /\ done' = TRUE /\ acts' = acts \cup {"Finish"} /\ UNCHANGED sl
+\* arithmetic over channel LISTS whose channels run at different rates ("list" in Slice.gens): madd of a list with
+\* scalar or list mul/add, binary operators list x scalar and list x list, negation of a list (2 channels each)
+LOp(op, sel, k, as) == [op |-> op, cls |-> "", sel |-> sel, rate |-> 0, nout |-> k, a |-> as]
+AddList == /\ ~done /\ NOps < Slice.n /\ "list" \in Slice.gens
+           /\ \E xs \in [1..2 -> Atoms] :
+                \/ \E m \in Atoms, d \in Atoms : Try("AddList", LOp("lmadd", "", 2, xs \o <<m, d>>))
+                \/ \E ms \in [1..2 -> Atoms], d \in Slice.consts : Try("AddList", LOp("zmadd", "", 2, xs \o ms \o <<C(d), C(d)>>))
+                \/ \E sel \in {"+", "-", "*"}, y \in Atoms : Try("AddList", LOp("lbin", sel, 2, xs \o <<y>>))
+                \/ \E sel \in {"+", "*"}, ys \in [1..2 -> Atoms] : Try("AddList", LOp("lbin", sel, 2, xs \o ys))
+                \/ Try("AddList", LOp("lun", "neg", 2, xs))
+\* output unit taking ALL channels of the last result (sink "OutAll")
+FinishAll == /\ ~done /\ Slice.sink = "OutAll" /\ NOps >= 1
+             /\ LET last == Len(prog.ins)
+                    p2 == Program(Append(prog.ins, Gen("Out", Slice.srate, 0,
+                                  <<C(0)>> \o [ch \in 1..prog.ins[last].nout |-> R(last, ch - 1)]))) IN
+                /\ Decidable(p2) /\ (Slice.anyrate \/ MustCompile(p2))
+                /\ prog' = p2 /\ done' = TRUE /\ acts' = acts \cup {"FinishAll"} /\ UNCHANGED sl
 \* two output units: Out.ar(0, a) and ReplaceOut.kr(1, b)
 Finish2 == /\ ~done /\ Slice.sink = "Out2"
            /\ \E a \in Signals, b \in Signals :
                LET p2 == Program(prog.ins \o <<Gen("Out", 2, 0, <<C(0), a>>), Gen("ReplaceOut", 1, 0, <<C(1), b>>)>>) IN
                /\ Decidable(p2) /\ MustCompile(p2)
-               /\ prog' = p2 /\ done' = TRUE /\ UNCHANGED sl
+               /\ prog' = p2 /\ done' = TRUE /\ acts' = acts \cup {"Finish2"} /\ UNCHANGED sl
 \* output units with channel ARRAYS (sink "Arr"): every output class, 2..3 channels drawn from all signals and
 \* constants in every position (so mixed-rate arrays with the bad channel first / in the middle / last occur),
 \* given flat or as nested lists; valid and invalid programs alike (C02 decides which must raise)
@@ -149,27 +168,27 @@ FinishArr == /\ ~done /\ Slice.sink = "Arr"
                                ELSE [op |-> "sinkn", cls |-> cls, sel |-> shape, rate |-> 2, nout |-> 0, a |-> SinkFixed(cls) \o xs]
                         p2 == Program(Append(prog.ins, ins)) IN
                     /\ ProgShapeOK(p2)
-                    /\ prog' = p2 /\ done' = TRUE /\ UNCHANGED sl
-Next == AddUn \/ AddBin \/ AddMAdd \/ AddSum \/ AddGen \/ Finish \/ Finish2 \/ FinishArr
+                    /\ prog' = p2 /\ done' = TRUE /\ acts' = acts \cup {"FinishArr"} /\ UNCHANGED sl
+Next == AddUn \/ AddBin \/ AddMAdd \/ AddSum \/ AddGen \/ AddList \/ Finish \/ Finish2 \/ FinishArr \/ FinishAll
 Spec == Init /\ [][Next]_vars
 
 (* the same generator for random walks (tlc -simulate): every action proposes ONE randomly drawn
    instruction instead of all of them, so that long programs over a big vocabulary can be sampled *)
 Pick(X) == {RandomElement(X)}
-RAddUn == ~done /\ NOps < Slice.n /\ Slice.un # {} /\ \E sel \in Pick(Slice.un), a \in Pick(Signals) : Try(Un(sel, a))
+RAddUn == ~done /\ NOps < Slice.n /\ Slice.un # {} /\ \E sel \in Pick(Slice.un), a \in Pick(Signals) : Try("AddUn", Un(sel, a))
 RAddBin == ~done /\ NOps < Slice.n /\ Slice.bin # {} /\ \E sel \in Pick(Slice.bin), a \in Pick(Atoms), b \in Pick(Atoms) :
-               NotAllConst(<<a, b>>) /\ Try(Bin(sel, a, b))
-RAddMAdd == ~done /\ NOps < Slice.n /\ Slice.madd /\ \E a \in Pick(Signals), m \in Pick(Atoms), d \in Pick(Atoms) : Try(MAdd(a, m, d))
+               NotAllConst(<<a, b>>) /\ Try("AddBin", Bin(sel, a, b))
+RAddMAdd == ~done /\ NOps < Slice.n /\ Slice.madd /\ \E a \in Pick(Signals), m \in Pick(Atoms), d \in Pick(Atoms) : Try("AddMAdd", MAdd(a, m, d))
 RAddSum == ~done /\ NOps < Slice.n /\ Slice.sums # {} /\ \E k \in Pick(Slice.sums) :
-               \E xs \in {[j \in 1..k |-> RandomElement(Atoms)]} : NotAllConst(xs) /\ Try(Sum(xs))
-RAddGen == ~done /\ NOps < Slice.n /\ Slice.gens # {} /\ \E cls \in Pick(Slice.gens), rate \in Pick({1, 2}) :
+               \E xs \in {[j \in 1..k |-> RandomElement(Atoms)]} : NotAllConst(xs) /\ Try("AddSum", Sum(xs))
+RAddGen == ~done /\ NOps < Slice.n /\ Slice.gens \cap ClassNames # {} /\ \E cls \in Pick(Slice.gens \cap ClassNames), rate \in Pick({1, 2}) :
               LET c == ClassTab[cls]
                   nout == IF c.nout < 0 THEN 2 ELSE c.nout
                   pos == Checked(c) \cap (1..c.lo) IN
               /\ rate \in c.rates
               /\ \E xs \in {[j \in pos |-> RandomElement(Signals)]} :
-                    Try(Gen(cls, rate, nout, [j \in 1..c.lo |-> IF j \in pos THEN xs[j] ELSE C(1)]))
-RFinish == /\ ~done /\ NOps >= Slice.n \div 2 /\ Slice.sink \notin {"Out2", "Arr"}
+                    Try("AddGen", Gen(cls, rate, nout, [j \in 1..c.lo |-> IF j \in pos THEN xs[j] ELSE C(1)]))
+RFinish == /\ ~done /\ NOps >= Slice.n \div 2 /\ Slice.sink \notin {"Out2", "Arr", "OutAll"}
            /\ \E a \in Pick(Signals) :
                LET fixed == IF Slice.sink = "LocalOut" THEN <<>> ELSE <<C(0)>>
                    zero == IF Slice.sink = "Out0" THEN <<C(0)>> ELSE <<>>       \* a literal 0 channel (becomes silence)
@@ -177,7 +196,7 @@ RFinish == /\ ~done /\ NOps >= Slice.n \div 2 /\ Slice.sink \notin {"Out2", "Arr
                    p2 == Program(Append(prog.ins, Gen(cls, Slice.srate, 0, fixed \o <<a>> \o zero))) IN
                /\ Decidable(p2)
                /\ Slice.anyrate \/ MustCompile(p2)
-               /\ prog' = p2 /\ done' = TRUE /\ UNCHANGED sl
+               /\ prog' = p2 /\ done' = TRUE /\ acts' = acts \cup {"Finish"} /\ UNCHANGED sl
 RNext == RAddUn \/ RAddBin \/ RAddMAdd \/ RAddSum \/ RAddGen \/ RFinish
 RSpec == Init /\ [][RNext]_vars
 
@@ -231,5 +250,5 @@ NaiveOK == (done /\ Plain(prog)) => /\ ImplWhy(prog, NaiveDef(prog), NaiveM(prog
 DropDetected == (done /\ Plain(prog)) => LET m == NaiveM(prog)
                             s == CHOOSE s \in GenIns(prog) : ClassTab[prog.ins[s].cls].se IN
                         ImplWhy(prog, NaiveDef(prog), [m EXCEPT ![s] = 0]) # "ok"
-Emit == done => PrintT(<<"PROG", ToJson(prog)>>)
+Emit == done => PrintT(<<"PROG", ToJson([p |-> prog, acts |-> acts])>>)
 =============================================================================
